@@ -288,8 +288,15 @@ func genRespProg(rng *Rng, last bool) []string {
 	bodiless := st < 200 || st == 204 || st == 304 || method == "HEAD"
 	switch rng.Intn(9) {
 	case 0: // no body
+		// trailer fields set although nothing is streamed (after seed C04-m7): the message must stay one message
+		if rng.Intn(4) == 0 {
+			toks = append(toks, "TR:"+hx([]byte("X-T"))+":"+hx([]byte("tv")))
+		}
 	case 1, 2:
 		toks = append(toks, "B:"+hx(genBodyBytes(rng, size)))
+		if rng.Intn(6) == 0 {
+			toks = append(toks, "TR:"+hx([]byte("X-T"))+":"+hx([]byte("tv")))
+		}
 	case 3:
 		for j := rng.Intn(3); j >= 0; j-- {
 			toks = append(toks, pick(rng, []string{"AB:", "WR:"})+hx(genBodyBytes(rng, size/2+j)))
